@@ -50,6 +50,7 @@ use vstd::std_specs::iter::IteratorSpec;
 //@ include units/C15/il_core.rs
 //@ mode contracts-only C18
 //@ include units/C18/loc_core.rs
+//@ include units/C18/loc_proofs.rs
 //@ mode contracts-only C04
 //@ include units/C04/builders.rs
 //@ mode full
@@ -76,6 +77,40 @@ use super::il::*;
 //@ mode full
 } // mod executor
 
+// C09: the trait contract + the abstract data-flow theory (no axioms, no broadcast use)
+pub mod fixed_point {
+use super::*;
+use super::il::*;
+use std::collections::HashMap;
+use std::fmt::Debug;
+//@ include units/C09/fp_trait.rs
+//@ include units/C09/fp_theory.rs
+// in the crate the solver lives in the same module as the trait (analysis::fixed_point); C09 keeps it in a
+// module of its own (key-model axioms in scope there only), re-exported here under the crate's path
+pub use super::fixed_point_engine::fixed_point_forward;
+proof fn vf_canary_fixed_point() ensures false {}
+} // mod fixed_point
+
+// C09: the forward solver, contract imported
+pub mod fixed_point_engine {
+use super::*;
+use super::il::*;
+use super::fixed_point::*;
+use std::collections::HashMap;
+use std::fmt::Debug;
+//@ mode contracts-only C09
+//@ include units/C09/fp_engine.rs
+//@ mode full
+proof fn vf_canary_fixed_point_engine() ensures false {}
+} // mod fixed_point_engine
+
+// stand-in for trait architecture::Architecture (lib/architecture.rs): only `stack_pointer` is used
+pub mod architecture {
+use super::*;
+use super::il::*;
+//@ include units/C17/arch_standin.rs
+} // mod architecture
+
 // the concrete semantics the property talks about, the concretisation, the arithmetic of translations
 pub mod spo_theory {
 use super::*;
@@ -92,9 +127,16 @@ use super::il::*;
 use super::il_subst::{replace_spec, repl_g, map_spec, map_result, env_upd, lemma_subst_eval};
 use super::executor::eval;
 use super::spo_theory::*;
+use super::fixed_point;
+use super::fixed_point::*;
+use super::fixed_point_engine::{fview, fkeys_ok, ploc, lemma_ploc_inj, lemma_ploc_of};
+use super::architecture::Architecture;
 use std::collections::HashMap;
+use std::fmt::Debug;
 broadcast use {location_hash::axiom_program_location_obeys_key_model};
 //@ include units/C17/spo.rs
+//@ include units/C17/spo_fp.rs
+//@ include units/C17/spo_lai.rs
 proof fn vf_canary_stack_pointer_offsets() ensures false {}
 } // mod stack_pointer_offsets
 
